@@ -330,6 +330,20 @@ func (r *Ref) Run(entry string, w *World) Outcome {
 					x.out.Finish = "JumpOut(" + l + ")"
 					return x.out
 				}
+			case (c.Name == "goto_if_set" || c.Name == "goto_if_unset") && len(c.Args) == 2 && len(c.Args[0].Toks) == 1 && len(c.Args[1].Toks) == 1:
+				// a conditional jump written by hand: the assembly cannot tell it from a generated one, so it
+				// is control flow (not an observable command) on both sides
+				if x.w.Flag(c.Args[0].Toks[0], x.epoch) == (c.Name == "goto_if_set") {
+					l := c.Args[1].Toks[0]
+					if q, ok := r.labels[l]; ok {
+						b, i = q.b, q.i
+					} else {
+						x.out.Finish = "JumpOut(" + l + ")"
+						return x.out
+					}
+				} else {
+					i++
+				}
 			default:
 				x.event(RenderCmd(c))
 				i++
